@@ -59,7 +59,18 @@ Inductive op :=
 (* byte I/O *)
 | OWrite (fam : iofam) (src : list elem) | OFlush (fam : iofam)
 | ORead (fam : iofam) (dst : list elem) | OFillBuf (fam : iofam)
-| OConsume (fam : iofam) (amt : Z).
+| OConsume (fam : iofam) (amt : Z)
+(* further constructors, iterator constructors and the Debug impls of the
+   iterators *)
+| OBoxed                                  (* CircularBuffer::boxed(), moved into place *)
+| ODefault                                (* <CircularBuffer as Default>::default() *)
+| OIterDefault (script : list sstep)      (* Iter::default(), then a script on it *)
+| OIterMutDefault (script : list sstep)   (* IterMut::default(), then a script on it *)
+| ORefIntoIter (script : list sstep)      (* (&buf).into_iter(), then a script *)
+| OIterDebug (sb eb : bound) (pre : list sstep)     (* range, script, then {:?} of the Iter *)
+| OIterMutDebug (sb eb : bound) (pre : list sstep)  (* range_mut, script, {:?} of the IterMut *)
+| ODrainDebug (sb eb : bound) (pre : list sstep)    (* drain, script, {:?} of the Drain, drop *)
+| OIntoIterDebug (pre : list sstep).                (* into_iter, script, {:?}, drop *)
 
 Inductive out :=
 | OutUnit
@@ -157,6 +168,21 @@ Fixpoint run_iter_script (it : iter) (script : list sstep) : M (list sres) :=
            | None => ret (RItem None)
            end;;
       rs <- run_iter_script it' rest;; ret (r :: rs)
+    end
+  end.
+
+(* the iterator the harness holds after the script (the moves of a pair of
+   views do not depend on the buffer) *)
+Fixpoint iter_after (it : iter) (script : list sstep) : iter :=
+  match script with
+  | [] => it
+  | st :: rest =>
+    match st with
+    | SNext => iter_after (fst (iter_next it)) rest
+    | SNextBack => iter_after (fst (iter_next_back it)) rest
+    | SLen | SClone => iter_after it rest
+    | SNextSet _ => iter_after (fst (iter_mut_next it)) rest
+    | SNextBackSet _ => iter_after (fst (iter_mut_next_back it)) rest
     end
   end.
 
@@ -319,6 +345,35 @@ Definition exec (o : op) : M out :=
   | ORead fam dst => '(n, d) <- fam_read fam dst;; ret (OutRead n d)
   | OFillBuf fam => l <- fam_fill_buf fam;; ret (OutList l)
   | OConsume fam amt => fam_consume fam amt;; ret OutUnit
+  | OBoxed => s <- get;; nb <- boxed (cap s) junk0;; replace_buf nb;; ret OutUnit
+  | ODefault => s <- get;; replace_buf (default_buf (cap s) junk0);; ret OutUnit
+  | OIterDefault script => rs <- run_iter_script iter_default script;; ret (OutScript rs)
+  | OIterMutDefault script => rs <- run_iter_script iter_mut_default script;; ret (OutScript rs)
+  | ORefIntoIter script =>
+    it <- ref_into_iter;; rs <- run_iter_script it script;; ret (OutScript rs)
+  | OIterDebug sb eb pre =>
+    it <- iter_over_range sb eb;;
+    rs <- run_iter_script it pre;;
+    iter_fmt (iter_after it pre);;
+    ret (OutScript rs)
+  | OIterMutDebug sb eb pre =>
+    it <- iter_mut_over_range sb eb;;
+    rs <- run_iter_script it pre;;
+    iter_mut_fmt (iter_after it pre);;
+    ret (OutScript rs)
+  | ODrainDebug sb eb pre =>
+    d <- drain_over_range sb eb;;
+    '(d', rs) <- run_drain_script d pre;;
+    (* the Drain is a live local while it is formatted *)
+    finally (drain_fmt d') (drain_drop d');;
+    ret (OutScript rs)
+  | OIntoIterDebug pre =>
+    s <- get;;
+    put (new_buf (cap s) junk0);;
+    '(rs, _) <- with_buf s (rs <- run_into_iter_script pre;;
+                            finally into_iter_fmt into_iter_drop;;
+                            ret rs);;
+    ret (OutScript rs)
   end.
 
 (* ---- histories ------------------------------------------------------------ *)
